@@ -1,15 +1,188 @@
 (* Properties/C16.v — Multipolygon assembly recovers the original rings for any split and order.
 
-   ONLY statements, each closed by [exact] of a lemma of Geo/*Proofs.v or C16/Proofs.v, and
-   Print Assumptions.  The model (Geo/Model.v) is tied to /repo by the correspondence harness
-   harness/cmd/c16 (osmgeojson.Convert, annotate.Relations, mputil.Join/Group through the
-   verif-tagged hook osmgeojson/verif_export.go). *)
-From Coq Require Import ZArith List Bool.
-From Verif Require Import Geo.Model Geo.JoinProofs.
+   ONLY statements, each closed by [exact] of a lemma of Geo/*.v, Print Assumptions, and
+   non-vacuity examples.  The model (Geo/Model.v) is tied to /repo by the correspondence harness
+   harness/cmd/c16 (osmgeojson.Convert, annotate.Relations, and mputil.Join/Ring/Orientation,
+   polygonContains, addToMultiPolygon through the verif-tagged hook osmgeojson/verif_export.go).
+
+   What is proved for ALL inputs (unbounded):  termination; conservation of segments and vertices
+   with the exact trimming structure of every chain; closedness of every chain for every cut,
+   reversal and order; winding of Ring(o) with truthful / partial / no member orientations;
+   the value annotateOrientation writes; independence from the coordinate source.
+   What is only checked on the implementation by the property oracle (judgement 2 of C16/Check.v)
+   and NOT proved: that a closed chain is exactly ONE ring (join_closes_rings, full statement
+   below), the geometric correctness of ray casting (holes_assigned) and the composition
+   build_polygon_recovers. *)
+From Coq Require Import ZArith List Bool Permutation.
+From Verif Require Import Geo.Model Geo.JoinProofs Geo.Conserve Geo.Closes Geo.Cut Geo.Orient Geo.Sources.
 Import ListNotations.
 Open Scope Z_scope.
 
-(* 1. the greedy joining loop terminates within the fuel the model gives it, for every input *)
+(* 1. join_terminates: the greedy loop finishes within the fuel of the model, for every input *)
 Theorem C16_join_terminates : forall segments, join segments <> JoinOutOfFuel.
 Proof. exact join_terminates. Qed.
 Print Assumptions C16_join_terminates.
+
+(* 2. join_conserves: the input segments with >= 2 points are used exactly once each (a
+      permutation), whole or reversed; [chain_rel] is the trimming structure spelled out in 2b/2c *)
+Theorem C16_join_conserves : forall segments chains, join segments = JoinOk chains ->
+  exists obss : list (list oseg),
+    Forall2 chain_rel obss chains /\
+    Permutation (map fst (concat obss)) (compact segments).
+Proof. exact join_conserves. Qed.
+Print Assumptions C16_join_conserves.
+
+(* 2b. every chain = segments before a seed without their last point, the seed whole, segments
+       after it without their first point; consecutive untrimmed segments share the joint;
+       Index and Orientation untouched, Reversed flipped exactly when the line was reversed *)
+Theorem C16_chain_structure : forall obs cur, chain_rel obs cur ->
+  (exists pre seed post, obs = pre ++ seed :: post /\
+     cur = map (fun ob => trim_last (orient ob)) pre ++ orient seed ::
+           map (fun ob => trim_first (orient ob)) post) /\
+  linked (map orient obs) /\ Forall (fun ob => len2 (fst ob)) obs.
+Proof. exact chain_rel_explicit. Qed.
+Print Assumptions C16_chain_structure.
+
+(* 2c. no vertex lost, duplicated or invented: the line of a chain is the lines of its segments
+       glued at the shared joints *)
+Theorem C16_chain_line : forall obs cur, chain_rel obs cur ->
+  ms_line cur = merge_lines (map (fun ob => seg_line (orient ob)) obs).
+Proof. exact chain_rel_line. Qed.
+Print Assumptions C16_chain_line.
+
+(* 3. every chain is closed whenever every point is an end of an even number of segment ends *)
+Theorem C16_join_closes : forall segments chains,
+  eulerian (compact segments) -> join segments = JoinOk chains -> Forall closed chains.
+Proof. exact join_closes. Qed.
+Print Assumptions C16_join_closes.
+
+Theorem C16_eulerianb_sound : forall segs, eulerianb segs = true -> eulerian segs.
+Proof. exact eulerianb_sound. Qed.
+
+(* 3b. join_closes_rings.  FULL STATEMENT (not proved):
+       forall rings segs chains, is_cut rings segs -> rings pairwise vertex-disjoint, each with
+       distinct vertices -> join segs = JoinOk chains ->
+       exists a bijection chains <-> rings such that the line of each chain is its ring, from
+       some start vertex, in one of the two directions (so: exactly that ring's segments in
+       cyclic order).
+       PROVED (partial): for EVERY cut of closed rings into consecutive pieces, every subset of
+       reversed pieces and every order, every chain is closed; together with 2/2b/2c each chain
+       is a closed walk through whole pieces, every piece used exactly once.
+       MISSING: that such a closed walk runs through one ring once (needs vertex-disjointness;
+       a degree-2 graph argument over the greedy loop). *)
+Theorem C16_join_closes_rings_partial : forall rings segs chains,
+  is_cut rings segs -> join segs = JoinOk chains -> Forall closed chains.
+Proof. exact join_closes_cut. Qed.
+Print Assumptions C16_join_closes_rings_partial.
+
+(* 4. ring_orientation: on a closed chain of non-zero area, Ring(o) is the chain's line or its
+      reverse, closed, and wound as o, when every member annotation that is present is truthful
+      (states the direction of the original way) — all, some or none present *)
+Theorem C16_ring_orientation : forall o ms,
+  (o = 1 \/ o = -1) ->
+  line_closed (ms_line ms) -> shoelace (ms_line ms) <> 0 ->
+  truthful (sign (shoelace (ms_line ms))) ms ->
+  sign (shoelace (ring_of o ms)) = o /\
+  line_closed (ring_of o ms) /\
+  (ring_of o ms = ms_line ms \/ ring_of o ms = rev (ms_line ms)).
+Proof. exact ring_of_orientation. Qed.
+Print Assumptions C16_ring_orientation.
+
+Theorem C16_ring_orientation_none : forall o ms,
+  (o = 1 \/ o = -1) -> line_closed (ms_line ms) -> shoelace (ms_line ms) <> 0 ->
+  (forall s, In s ms -> seg_orient s = 0) ->
+  sign (shoelace (ring_of o ms)) = o /\ line_closed (ring_of o ms).
+Proof. exact ring_of_orientation_none. Qed.
+Print Assumptions C16_ring_orientation_none.
+
+(* the code's two offset shoelace sums are the textbook signed area on closed lines *)
+Theorem C16_ring_area : forall r, line_closed r -> ring_area2 r = shoelace r.
+Proof. exact ring_area2_eq. Qed.
+Theorem C16_ms_area : forall ms, line_closed (ms_line ms) -> ms_area2 ms = shoelace (ms_line ms).
+Proof. exact ms_area2_eq. Qed.
+Theorem C16_reverse_negates : forall l, shoelace (rev l) = - shoelace l.
+Proof. exact shoelace_rev. Qed.
+
+(* 5. orientation_annotation_truthful.  FULL STATEMENT (not proved): after annotate_orientation
+      every way member carries the direction its way runs around its ground-truth ring.
+      PROVED (partial): annotateOrientation on a closed chain of non-zero area writes, for each of
+      its segments, the direction of the ORIGINAL way (chain direction, negated iff Reversed),
+      and touches no other member.  MISSING: the composition over all chains and 3b. *)
+Theorem C16_orientation_annotation_truthful_partial : forall o ms os s,
+  (o = 1 \/ o = -1) -> line_closed (ms_line ms) -> shoelace (ms_line ms) <> 0 ->
+  NoDup (map idx ms) -> In s ms -> (idx s < length os)%nat ->
+  nth (idx s) (annotate_ms o os ms) 0 = way_direction (sign (shoelace (ms_line ms))) s.
+Proof. exact annotate_ms_truthful. Qed.
+Print Assumptions C16_orientation_annotation_truthful_partial.
+
+Theorem C16_orientation_annotation_frame : forall o ms os i,
+  (forall s, In s ms -> idx s <> i) -> nth i (annotate_ms o os ms) 0 = nth i os 0.
+Proof. exact annotate_ms_frame. Qed.
+
+(* 6. both ways of supplying coordinates give the same line (hypothesis: no vertex at (0,0),
+      every referenced node exists) *)
+Theorem C16_coordinate_sources : forall nodes ids,
+  Forall not_origin nodes ->
+  (forall id, In id ids -> lookup_node nodes id <> None) ->
+  way_to_line [] (map (annotated nodes) ids) = way_to_line nodes (map bare ids) /\
+  way_to_line nodes (map (annotated nodes) ids) = way_to_line nodes (map bare ids) /\
+  snd (way_to_line nodes (map bare ids)) = false /\
+  length (fst (way_to_line nodes (map bare ids))) = length ids.
+Proof. exact way_to_line_sources. Qed.
+Print Assumptions C16_coordinate_sources.
+
+(* build_polygon_recovers.  FULL STATEMENT (not proved): for every valid scene (Spec.scene_ok +
+   simple, disjoint, strictly nested rings), every valid cut, reversal, member/node order, both
+   coordinate sources and truthful-or-absent orientations,
+   polygons_match scene (polygons of (build_polygon false nodes ways members)) = true.
+   It is evaluated on the implementation's output for every generated scene (judgement 2). *)
+
+(* ------------------------------------------------------------------ non-vacuity *)
+Definition ex_ring : line := [(1,1); (5,1); (5,5); (1,5); (1,1)].
+Definition ex_pieces : list line := [[(1,1); (5,1); (5,5)]; [(5,5); (1,5)]; [(1,5); (1,1)]].
+(* the middle piece first and reversed, the first piece reversed *)
+Definition ex_segs : list segment :=
+  [mkSeg 0 0 false [(1,5); (5,5)]; mkSeg 1 0 false [(1,5); (1,1)]; mkSeg 2 0 false [(5,5); (5,1); (1,1)]].
+
+Example ex_is_cut : is_cut [ex_ring] ex_segs.
+Proof.
+  split; [repeat constructor|].
+  exists [ex_pieces], [([(1,1); (5,1); (5,5)], true); ([(5,5); (1,5)], true); ([(1,5); (1,1)], false)].
+  split; [|split].
+  - constructor; [|constructor]. unfold cut_of, ex_pieces. split; [discriminate|].
+    split; [repeat constructor|]. split; [simpl; auto|reflexivity].
+  - reflexivity.
+  - simpl. unfold flip. simpl.
+    symmetry. apply (Permutation_cons_app [_; _] []). reflexivity.
+Qed.
+
+Example ex_join : join ex_segs =
+  JoinOk [[mkSeg 0 0 false [(1,5)]; mkSeg 2 0 false [(5,5); (5,1); (1,1)]; mkSeg 1 0 true [(1,5)]]].
+Proof. vm_compute. reflexivity. Qed.
+
+Example ex_closed : Forall closed [[mkSeg 0 0 false [(1,5)]; mkSeg 2 0 false [(5,5); (5,1); (1,1)]; mkSeg 1 0 true [(1,5)]]].
+Proof. exact (C16_join_closes_rings_partial _ _ _ ex_is_cut ex_join). Qed.
+
+Example ex_eulerianb : eulerianb ex_segs = true.
+Proof. vm_compute. reflexivity. Qed.
+
+(* the joined chain runs clockwise; member 1 was reversed by join, members 0 and 2 not:
+   truthful annotations are -1, 1, -1 for members 0, 1, 2; here member 2 carries none *)
+Definition ex_chain : multisegment :=
+  [mkSeg 0 (-1) false [(1,5)]; mkSeg 2 0 false [(5,5); (5,1); (1,1)]; mkSeg 1 1 true [(1,5)]].
+Example ex_chain_area : shoelace (ms_line ex_chain) = -32.
+Proof. vm_compute. reflexivity. Qed.
+Example ex_truthful : truthful (sign (shoelace (ms_line ex_chain))) ex_chain.
+Proof.
+  intros s [<-|[<-|[<-|[]]]]; vm_compute; auto.
+Qed.
+Example ex_ring_ccw : ring_of 1 ex_chain = [(1,5); (1,1); (5,1); (5,5); (1,5)].
+Proof. vm_compute. reflexivity. Qed.
+Example ex_annotate : annotate_ms (-1) [0; 0; 0] ex_chain = [-1; 1; -1].
+Proof. vm_compute. reflexivity. Qed.
+
+Example ex_sources :
+  let nodes := [mkNode 7 5 1; mkNode 3 1 1; mkNode 9 5 5] in
+  way_to_line [] (map (annotated nodes) [3; 7; 9]) = ([(1,1); (5,1); (5,5)], false) /\
+  way_to_line nodes (map bare [3; 7; 9]) = ([(1,1); (5,1); (5,5)], false).
+Proof. vm_compute. split; reflexivity. Qed.
